@@ -23,6 +23,7 @@ type SrcSpec struct {
 	Kind string
 	Form string
 	V    reflect.Value // of kindTypes[Kind]; invalid for pn / foreign
+	Own  reflect.Type  // Form "ownnilp": a typed-nil pointer to this (struct / map / slice) type
 }
 
 // Any builds the `any` the API receives.
@@ -32,6 +33,8 @@ func (s SrcSpec) Any() any {
 		return foreignT{X: 7}
 	case "foreignp":
 		return &foreignT{X: 7}
+	case "ownnilp":
+		return reflect.Zero(reflect.PointerTo(s.Own)).Interface()
 	case "pn":
 		return reflect.Zero(reflect.PointerTo(kindTypes[s.Kind])).Interface()
 	case "p":
@@ -45,7 +48,9 @@ func (s SrcSpec) Any() any {
 
 // Toks: <kind> <form> <val> <ftext-hex> <pf>
 func (s SrcSpec) Toks() string {
-	if s.Form == "foreign" || s.Form == "foreignp" {
+	if s.Form == "foreign" || s.Form == "foreignp" || s.Form == "ownnilp" {
+		// a typed-nil pointer to the addressed container's own type matches the emitted `value.(*T)` assertion and
+		// nothing else: the model treats it like any value no arm takes
 		return "foreign " + s.Form + " - h e"
 	}
 	if s.Form == "pn" {
